@@ -137,6 +137,19 @@ Fixpoint max_flush_per_round (tr : list label) (cur best : nat) : nat :=
   | _ :: tr' => max_flush_per_round tr' cur best
   end.
 
+(** an idle round in which the handler neither called a batch function nor received a resolution of
+    this execution: it returned without having sent a result to any promise (the executor's contract;
+    impossible in the LTS: C15_idle_round_fulfils) *)
+Fixpoint empty_round (tr : list label) (in_round delivered : bool) : bool :=
+  match tr with
+  | [] => false
+  | LIdleEnter :: tr' => empty_round tr' true false
+  | LFlush _ _ :: tr' => empty_round tr' in_round true
+  | LRecv _ :: tr' => empty_round tr' in_round true
+  | LIdleExit :: tr' => (in_round && negb delivered) || empty_round tr' false false
+  | _ :: tr' => empty_round tr' in_round delivered
+  end.
+
 (** a round that both flushes and receives *)
 Fixpoint flush_then_recv (tr : list label) (flushed : bool) : bool :=
   match tr with
@@ -198,6 +211,14 @@ Definition check (c : sexp) : sexp :=
                 as_bytes ra, as_bytes rs, as_nat lk, as_bool hg with
           | Some items, Some tr, Some dl, Some respa, Some resps, Some leak, Some hang =>
               let p := mk_prog items in
+              (* a field with two failing getters, the first through a promise, the second
+                 synchronously: either admissible error, identical data (the harness offers the second
+                 reference only there and only when its data equals the reference's; C02's known
+                 finding admissible-error-differs) *)
+              let alt_ok := match field1 "respalt" l with
+                            | Some a => match as_bytes a with Some ab => bytes_eqb respa ab | None => false end
+                            | None => false
+                            end in
               (* the request context was cancelled: the response legitimately differs from the
                  all-synchronous one (fields not invoked / functions returning the context's error);
                  every other clause is judged as usual *)
@@ -218,8 +239,9 @@ Definition check (c : sexp) : sexp :=
                                             | None => false end) dl with
                   | Some d => v_oracle_fail "promise-holds-wrong-result" [of_nat (fst d)]
                   | None =>
-                      if negb cancelled && negb (bytes_eqb respa resps) then v_oracle_fail "response-differs-from-synchronous" []
+                      if negb cancelled && negb (bytes_eqb respa resps) && negb alt_ok then v_oracle_fail "response-differs-from-synchronous" []
                       else if negb (Nat.eqb leak 0) then v_oracle_fail "goroutine-blocked-after-request" [of_nat leak]
+                      else if empty_round tr false false then v_oracle_fail "idle-round-filled-no-promise-of-this-execution" []
                       else
                         (* ---- the model as an acceptor of the observed history ---- *)
                         (* the code that exists ([current]); a history it rejects is tried against
@@ -238,6 +260,7 @@ Definition check (c : sexp) : sexp :=
                         | inl s =>
                             match st_phase s with
                             | PEnded => v_ok (classes items tr m ++ sym_class l "gmp" ++ sym_class l "ws" ++
+                                              (if alt_ok && negb (bytes_eqb respa resps) then ["admissible-error-differs"] else []) ++
                                               (if cancelled then sym_class l "cancelkind" else []) ++
                                               (if cancelled && existsb (fun it => match it_res it with RErr (-3) => true | _ => false end) items
                                                then ["function-returned-ctx-error"] else []) ++
